@@ -55,8 +55,42 @@ def small(c, p):
     return BIG
 
 
+def inverse_facts(be, bname, xs, out):
+    p = be.get_modulus()
+    out["facts"].append({"kind": "modulus", "backend": bname, "p": limbs(p)})
+    for x in xs:
+        xv = x["s"] + x["t"] * p
+        try:
+            inv = be.fieldinverse(xv)
+            raised = False
+        except Exception:
+            inv, raised = None, True
+        if xv % p == 0:
+            out["facts"].append({"kind": "inverse_of_zero", "backend": bname, "raised": raised or inv in (None,)})
+            continue
+        if raised or not isinstance(inv, int) or inv < 0:
+            out["facts"].append({"kind": "inverse", "backend": bname, "neg": xv < 0, "absx": limbs(abs(xv)), "inv": [], "k": [], "x": x})
+            continue
+        k = (abs(xv) * inv + (1 if xv < 0 else -1)) // p     # quotient certificate; TLC checks the exact identity
+        out["facts"].append({"kind": "inverse", "backend": bname, "neg": xv < 0, "absx": limbs(abs(xv)), "inv": limbs(inv), "k": limbs(k), "x": x})
+
+
+def switching(job):
+    """One process walks through the three zkinterface field configurations (and back), asking the same inverses each time."""
+    out = {"backend": "zkswitch", "modulus": [], "traces": [], "facts": []}
+    import importlib
+    for name in ("zkinterface", "zkifbellman", "zkifbulletproofs", "zkinterface", "zkifbulletproofs", "zkifbellman"):
+        mod = load(name)
+        importlib.reload(mod) if name != "zkinterface" else importlib.import_module("pysnark.zkinterface.backend").set_modulus(
+            21888242871839275222246405745257275088548364400416034343698204186575808495617)
+        inverse_facts(mod, name, job.get("xs", []), out)
+    json.dump(out, open(sys.argv[2], "w"), separators=(",", ":"))
+
+
 def main():
     job = json.load(open(sys.argv[1]))
+    if job["backend"] == "zkswitch":
+        return switching(job)
     be = load(job["backend"])
     p = be.get_modulus()
     out = {"backend": job["backend"], "modulus": limbs(p), "traces": [], "facts": []}
@@ -105,6 +139,8 @@ def main():
                 continue
             k = (abs(xv) * inv + (1 if xv < 0 else -1)) // p     # quotient certificate; TLC checks the exact identity
             out["facts"].append({"kind": "inverse", "backend": bname, "neg": xv < 0, "absx": limbs(abs(xv)), "inv": limbs(inv), "k": limbs(k), "x": x})
+    if bname == "zkswitch":
+        pass
     json.dump(out, open(sys.argv[2], "w"), separators=(",", ":"))
 
 
